@@ -37,6 +37,21 @@ def seeded_table():
     return "\n".join(rows), n, det
 
 
+def harmless_table():
+    rows = ["| rewrite | property | what was rewritten (from the author's notes) | equivalent + suite | check |",
+            "|---|---|---|---|---|"]
+    n = quiet = 0
+    for d in sorted((V / "harmless").glob("*/meta.json")):
+        m = json.loads(d.read_text())
+        n += 1
+        alarm = bool(m.get("alarm"))
+        quiet += (not alarm)
+        what = " ".join(m.get("what", "").split())[:240].replace("|", "/")
+        rows.append(f"| {d.parent.name} | {m['property']} | {what} | {'yes' if m.get('confirmed_harmless') else 'NO'} | "
+                    f"{'**alarm** (no-failing-input-found)' if alarm else 'quiet'} |")
+    return "\n".join(rows), n, quiet
+
+
 def main():
     out = [(parts / "00_head.md").read_text()]
     out.append("\n---------------------------------------------------------------------------\n\n## 5. Per-property design "
@@ -51,6 +66,8 @@ def main():
     tail = (parts / "90_tail.md").read_text()
     tail = tail.replace("@@FINDINGS@@", ft).replace("@@NFIX@@", str(nfix)).replace("@@NKNOWN@@", str(nknown))
     tail = tail.replace("@@SEEDED@@", st).replace("@@NSEED@@", str(n)).replace("@@NDET@@", str(det))
+    ht, hn, hq = harmless_table()
+    tail = tail.replace("@@HARMLESS@@", ht).replace("@@NHARM@@", str(hn)).replace("@@NQUIET@@", str(hq))
     out.append("\n" + tail)
     (V / "DESIGN.md").write_text("\n".join(out))
     print("DESIGN.md written:", sum(len(o.splitlines()) for o in out), "lines")
